@@ -224,7 +224,7 @@ class Run:
         if not replay:
             replay = base + ".log"
         if sig not in [v[0] for v in self.violations]:
-            self.violations.append((sig, replay))
+            self.violations.append((sig, replay, base + ".log"))
 
     # ---------------------------------------------------------------- evidence
     def write_evidence(self):
@@ -330,10 +330,9 @@ class Run:
             else:
                 log("note: listed finding %s did not reproduce in this run (replay: %s)" % (f["signature"], yn))
         if self.violations:
-            for sig, rp in self.violations:
+            for sig, rp, lg in self.violations:
                 log("VIOLATION property=%s replay=%s" % (self.pid, rp))
                 log("  signature: %s" % sig)
-                lg = re.sub(r"\.[a-z]+$", ".log", rp)
                 if os.path.exists(lg):
                     tail = [l for l in open(lg, errors="replace").read().splitlines() if "VIOLATION-SIG" in l]
                     for l in tail[-3:]:
